@@ -25,6 +25,7 @@ import atexit
 import hashlib
 import json
 import math
+import sys
 import os
 import random
 import shutil
@@ -52,7 +53,7 @@ def fbits(x: float) -> int:
 
 def phi_of_y(y: float) -> float:
     p = 0.5 * math.erfc(y / math.sqrt(2))
-    if p <= 0:
+    if p < sys.float_info.min:     # the code treats a subnormal tail probability like an underflowed one
         return float("inf")
     return -math.log10(p)
 
